@@ -212,3 +212,73 @@ def build_atom(rso, atom, par, arg, scale=None):
 
 def coprime_pairs(amax):
     return [(a, b) for a in range(2, amax + 1) for b in range(1, a) if math.gcd(a, b) == 1]
+
+
+# ---------------------------------------------------------------------------------------------
+# the same atoms through the METHOD spelling  arg.f(...)  (Vars / VarSub / Affine / DecVar / DecVarSub / DecAffine)
+ATOM_METHODS = {'abs': 'abs', 'norm1': 'norm', 'norminf': 'norm', 'norm2': 'norm', 'pnorm_soc': 'pnorm',
+                'pnorm_exc': 'pnorm', 'square': 'square', 'sumsqr': 'sumsqr', 'quad_psd': 'quad', 'quad_nsd': 'quad',
+                'power': 'power', 'gmean': 'gmean', 'exp': 'exp', 'log': 'log', 'pexp': 'pexp', 'plog': 'plog',
+                'entropy': 'entropy', 'softplus': 'softplus', 'kldiv': 'kldiv', 'rsocone': 'rsocone',
+                'expcone': 'expcone'}
+# public methods of the variable / expression classes that are not convex atoms (array algebra, bookkeeping: C05,
+# C12, C13) and atoms that need an SDP solver (not installed)
+NON_ATOM_METHODS = {'assign', 'diag', 'flatten', 'get', 'get_ind', 'iter', 'reshape', 'sum', 'to_affine', 'trace',
+                    'tril', 'triu', 'concat', 'rand_to_roaffine', 'sv_array', 'adapt', 'affadapt', 'evtadapt'}
+SDP_METHODS = {'logdet', 'rootdet'}
+
+
+def build_atom_method(atom, par, arg, scale=None, via_norm=False, default_q=False):
+    """arg.f(...) - the method spelling of build_atom.  via_norm: p-norms through .norm(degree, method);
+    default_q: power(p) without the denominator when q == 1."""
+    if atom == 'abs':
+        return arg.abs()
+    if atom == 'norm1':
+        return arg.norm(1)
+    if atom == 'norminf':
+        return arg.norm('inf')
+    if atom == 'norm2':
+        return arg.norm(2)
+    if atom in ('pnorm_soc', 'pnorm_exc'):
+        deg = tuple(par) if isinstance(par, list) else par
+        meth = 'soc' if atom == 'pnorm_soc' else 'exc'
+        return arg.norm(deg, meth) if via_norm else arg.pnorm(deg, meth)
+    if atom == 'square':
+        return arg.square()
+    if atom == 'sumsqr':
+        return arg.sumsqr()
+    if atom in ('quad_psd', 'quad_nsd'):
+        return arg.quad(np.asarray(par, dtype=float))
+    if atom == 'power':
+        p, q = par
+        p = np.asarray(p) if isinstance(p, list) else p
+        q = np.asarray(q) if isinstance(q, list) else q
+        return arg.power(p) if default_q else arg.power(p, q)
+    if atom == 'gmean':
+        return arg.gmean(par)
+    if atom == 'exp':
+        return arg.exp()
+    if atom == 'log':
+        return arg.log()
+    if atom == 'pexp':
+        return arg.pexp(scale)
+    if atom == 'plog':
+        return arg.plog(scale)
+    if atom == 'entropy':
+        return arg.entropy()
+    if atom == 'softplus':
+        return arg.softplus()
+    raise ValueError('no method spelling for atom %r' % (atom,))
+
+
+def build_atom_fn(rso, atom, par, arg, scale=None, via_norm=False, default_q=False):
+    """rso.f(arg, ...) with the same optional spellings as build_atom_method."""
+    if atom in ('pnorm_soc', 'pnorm_exc') and via_norm:
+        deg = tuple(par) if isinstance(par, list) else par
+        return rso.norm(arg, deg, 'soc' if atom == 'pnorm_soc' else 'exc')
+    if atom == 'power' and default_q:
+        p = par[0]
+        return rso.power(arg, np.asarray(p) if isinstance(p, list) else p)
+    if atom == 'norm2' and via_norm:
+        return rso.fnorm(arg)
+    return build_atom(rso, atom, par, arg, scale)
